@@ -25,4 +25,6 @@ VARIANTS = [
     V('benign-copy-method-form', F, ("copy.TM = np.copy(self.TM)", "copy.TM = self.TM.copy()"), 'silent'),
     V('benign-bool-flag', F, [("refresh = 0", "refresh = False"), ("refresh = 1", "refresh = True"), ("if refresh == 1:", "if refresh:")], 'silent'),
     V('benign-stm-copies', F, ("self.TM = TM\n        self.TMtoTAA()", "self.TM = np.array(TM, dtype=float)\n        self.TMtoTAA()"), 'silent'),
+    V('copy-constructor-shares-matrix', F, ("self.TM = initializer_array.TM.copy()", "self.TM = initializer_array.TM"), 'fire', 'R03.5'),
+    V('benign-copy-constructor-np-copy', F, ("self.TM = initializer_array.TM.copy()", "self.TM = np.array(initializer_array.TM)"), 'silent'),
 ]
